@@ -1,2 +1,91 @@
-import AlgoVerif.Common
-/-! # C04 — property theorems (none yet) -/
+import AlgoVerif.Proofs.C04Binary
+import AlgoVerif.Proofs.C04Binomial
+import AlgoVerif.Proofs.C04Fib
+/-!
+# C04 — heaps are priority queues (property theorems; helper lemmas in `Proofs/C04*.lean`)
+
+`Admitted1` / `Admitted` (Spec/C04.lean): every operation of the history returns (no `panic`, no
+`diverge`), `Peek`/`Delete` return a held pair whose key is `cmp`-extremal among all held entries,
+`Delete` removes exactly that pair, `Size` = number of held entries, `IsEmpty`/`ContainsKey`/`ContainsValue`
+answer membership over the held multiset, `Merge` makes the receiver hold the multiset union.
+`LawfulCmp cmp`: `cmp` is a total preorder read through its sign (min or max orientation alike).
+-/
+open AlgoVerif AlgoVerif.C04
+
+/-- Binary heap (`heap/binary.go`): for every lawful comparator, every initial size and every finite
+history, the trace of the Model is admitted by the multiset Spec. -/
+theorem C04_binary {K V : Type} (cmp : K → K → Int) (hc : LawfulCmp cmp) (eqV : V → V → Bool) (size : Nat)
+    (ops : List (Op K V)) :
+    Admitted1 cmp eqV [] ops (Binary.run cmp eqV size ops) := by
+  have := binary_admitted hc eqV ops (Binary.new size) (BInv_new cmp size)
+  rwa [abs_new] at this
+
+/-- non-vacuity: the hypotheses hold for the two `int` comparators the harness uses (and for a preorder with
+ties between distinct keys), and a history with duplicate keys, a resize (size 0 → capacity 2 → 4) and a
+tie on the extremal key runs as the theorem says. -/
+example : LawfulCmp cmpAsc ∧ LawfulCmp cmpDesc ∧ LawfulCmp cmpHalf := ⟨lawful_cmpAsc, lawful_cmpDesc, lawful_cmpHalf⟩
+example : Binary.run cmpAsc (fun a b : Int => a == b) 0
+      [.insert 3 1, .insert 1 2, .insert 1 3, .delete, .size, .containsKey 3, .delete, .delete, .delete] =
+    [.ok .unit, .ok .unit, .ok .unit, .ok (.kv (some (1, 2))), .ok (.int 2), .ok (.bool true),
+     .ok (.kv (some (1, 3))), .ok (.kv (some (3, 1))), .ok (.kv none)] := by decide
+
+/-- Binomial heap (`heap/binomial.go`): for every lawful comparator and every finite history over a family of
+heaps (Insert / Delete / DeleteAll / Peek / Size / IsEmpty / ContainsKey / ContainsValue on any heap of the
+family, `Merge` of one heap of the family into a different one), the trace of the Model is admitted by the
+multiset Spec. -/
+theorem C04_binomial {K V : Type} (cmp : K → K → Int) (hc : LawfulCmp cmp) (eqV : V → V → Bool)
+    (ops : List (MOp K V)) (hwf : WellFormed ops) :
+    Admitted cmp eqV (fun _ => []) ops ((binomialImpl cmp eqV).run ops) :=
+  (binomialRefines hc eqV).admitted ops hwf
+
+/-- non-vacuity: a well-formed history with duplicate keys, a Merge of two non-empty heaps (which links twice)
+and a tie on the extremal key; its trace is the one the theorem admits. -/
+example : WellFormed ([.on 0 (.insert 3 1), .on 0 (.insert 1 2), .on 1 (.insert 1 3), .on 1 (.insert 2 4), .merge 0 1,
+       .on 0 .delete, .on 0 .size, .on 1 .size, .on 0 .delete, .on 0 (.containsKey 3)] : List (MOp Int Int)) := by
+  intro d s h; simp at h; omega
+example : (binomialImpl cmpAsc (fun a b : Int => a == b)).run
+      [.on 0 (.insert 3 1), .on 0 (.insert 1 2), .on 1 (.insert 1 3), .on 1 (.insert 2 4), .merge 0 1,
+       .on 0 .delete, .on 0 .size, .on 1 .size, .on 0 .delete, .on 0 (.containsKey 3)] =
+    [.ok .unit, .ok .unit, .ok .unit, .ok .unit, .ok .unit,
+     .ok (.kv (some (1, 2))), .ok (.int 3), .ok (.int 0), .ok (.kv (some (1, 3))), .ok (.bool true)] := by
+  simp [Impl.run, Impl.runFrom, Impl.mstep, binomialImpl, Binomial.step, update, Binomial.insert, Binomial.union,
+    Binomial.merge, Binomial.consolidate, Binomial.consLoop, Binomial.new, Tree.leaf, Tree.deg,
+    Binomial.sibSameOrder, Tree.link, cmpAsc, Tree.key, Binomial.mergeWith, Binomial.delete, Binomial.findExt,
+    Binomial.findExtLoop, Tree.children, Tree.val, Binomial.containsKey, Tree.anyF, Tree.any]
+
+/-- Fibonacci heap (`heap/fibonacci.go`): for every lawful comparator and every finite history over a family of
+heaps, the trace of the Model is admitted by the multiset Spec.  In particular `consolidate` never indexes
+`roots` out of range (every tree is an unordered binomial tree, so `2 ^ degree ≤ n` and
+`degree < maxDegree n`), never follows a pointer to a node already cut from the root list, returns within
+its `(number of roots + 1)²` iterations, and leaves `h.ext` on a root with an extremal key. -/
+theorem C04_fibonacci {K V : Type} (cmp : K → K → Int) (hc : LawfulCmp cmp) (eqV : V → V → Bool)
+    (ops : List (MOp K V)) (hwf : WellFormed ops) :
+    Admitted cmp eqV (fun _ => []) ops ((fibImpl cmp eqV).run ops) :=
+  (fibRefines hc eqV).admitted ops hwf
+
+/-- non-vacuity (max orientation): lazy inserts, a Merge of two non-empty heaps, a Delete whose `consolidate`
+links three times (root list `3 2 4 5` → one tree of degree 2), a tie on the extremal key `5`. -/
+example : WellFormed ([.on 0 (.insert 3 1), .on 0 (.insert 5 2), .on 1 (.insert 5 3), .on 1 (.insert 2 4),
+      .on 1 (.insert 4 5), .merge 0 1, .on 0 .delete, .on 0 .size, .on 1 .size, .on 0 .delete,
+      .on 0 (.containsKey 3)] : List (MOp Int Int)) := by
+  intro d s h; simp at h; omega
+example : (fibImpl cmpDesc (fun a b : Int => a == b)).run
+      [.on 0 (.insert 3 1), .on 0 (.insert 5 2), .on 1 (.insert 5 3), .on 1 (.insert 2 4), .on 1 (.insert 4 5),
+       .merge 0 1, .on 0 .delete, .on 0 .size, .on 1 .size, .on 0 .delete, .on 0 (.containsKey 3)] =
+    [.ok .unit, .ok .unit, .ok .unit, .ok .unit, .ok .unit, .ok .unit,
+     .ok (.kv (some (5, 2))), .ok (.int 4), .ok (.int 0), .ok (.kv (some (5, 3))), .ok (.bool true)] := by
+  decide
+
+/-- The arithmetic behind `roots[x.degree]` being in range: a tree of degree `d` that fits into `n` nodes
+(`2 ^ d ≤ n`, which holds for the unordered binomial trees of the plain Fibonacci heap) has
+`d < maxDegree n` for the integer `maxDegree` of the Model (`⌊log_φ n⌋ + 1`). -/
+theorem C04_fibonacci_degree_in_range (n d : Nat) (h : 2 ^ d ≤ n) : maxDegree (n : Int) = .ok (floorLogPhi n + 1) ∧
+    d < floorLogPhi n + 1 := by
+  have hpos : 0 < n := Nat.lt_of_lt_of_le (Nat.two_pow_pos d) h
+  refine ⟨?_, deg_lt_maxDegree n d h⟩
+  unfold maxDegree
+  rw [if_neg (by omega)]
+  simp
+
+/-- non-vacuity: 13 nodes can hold a tree of degree 3 (8 nodes); `maxDegree 13 = 6`. -/
+example : maxDegree (13 : Int) = .ok 6 ∧ 3 < floorLogPhi 13 + 1 := by decide
